@@ -9,7 +9,9 @@ import (
 	"os/exec"
 	"reflect"
 	"runtime"
+	"strings"
 	"sync"
+	"time"
 
 	"flamingo.me/pugtemplate/pugjs"
 )
@@ -300,20 +302,36 @@ func runC07(c c07Case) (obs c07Obs, err error) {
 }
 
 // child runs one case in a process of its own (this binary, runner C07one).
-func c07Child(self string, c c07Case) (obs c07Obs, err error) {
+func c07Child(self, tmp string, c c07Case) (obs c07Obs, err error) {
 	in, err := json.Marshal(c)
 	if err != nil {
 		return obs, err
 	}
-	cmd := exec.Command(self, "C07one")
+	ctx, cancel := context.WithTimeout(context.Background(), 5*time.Minute) // a hung child ends as a crash
+	defer cancel()
+	cmd := exec.CommandContext(ctx, self, "C07one")
 	cmd.Stdin = bytes.NewReader(in)
+	cmd.Env = append(os.Environ(), "TMPDIR="+tmp) // a child the runtime kills cannot remove its files: the parent does
 	var stderr bytes.Buffer
 	cmd.Stderr = &stderr
 	out, err := cmd.Output()
 	if err != nil {
 		msg := stderr.String()
-		if len(msg) > 2000 {
-			msg = msg[:2000]
+		if len(msg) > 600 {
+			msg = msg[:600]
+		}
+		if _, died := err.(*exec.ExitError); died && !strings.HasPrefix(msg, "harness error:") && !strings.HasPrefix(msg, "bad input:") {
+			// the Go runtime killed the process (stack exhaustion, concurrent map access, ...): nothing a
+			// recover() can catch.  Every render of that process is reported as class "crash".
+			n := 6
+			if c.Single {
+				n = 1
+			}
+			obs = c07Obs{Load: clsOK, Untouched: true, PrefixUntouched: true, FreshUntouched: true, Msg: msg}
+			for i := 0; i < n; i++ {
+				obs.R = append(obs.R, renderResult{Class: "crash"})
+			}
+			return obs, nil
 		}
 		return obs, fmt.Errorf("child process: %v: %s", err, msg)
 	}
@@ -323,13 +341,13 @@ func c07Child(self string, c c07Case) (obs c07Obs, err error) {
 
 // c07Isolated: one process for the full sequence of the case and c.Fresh more processes that render the
 // pair exactly once - no state of any kind is shared between two cases or between these processes.
-func c07Isolated(self string, c c07Case) (c07Obs, error) {
+func c07Isolated(self, tmp string, c c07Case) (c07Obs, error) {
 	n := c.Fresh
 	c.Fresh = 0
 	if c.Single {
-		return c07Child(self, c)
+		return c07Child(self, tmp, c)
 	}
-	obs, err := c07Child(self, c)
+	obs, err := c07Child(self, tmp, c)
 	if err != nil || obs.Load != clsOK {
 		return obs, err
 	}
@@ -337,7 +355,7 @@ func c07Isolated(self string, c c07Case) (c07Obs, error) {
 	c.Single = true
 	c.Prefix = nil
 	for i := 0; i < n; i++ {
-		o, err := c07Child(self, c)
+		o, err := c07Child(self, tmp, c)
 		if err != nil {
 			return obs, err
 		}
@@ -367,6 +385,11 @@ func init() {
 		if err != nil {
 			return nil, err
 		}
+		tmp, err := os.MkdirTemp("", "pv07run")
+		if err != nil {
+			return nil, err
+		}
+		defer os.RemoveAll(tmp)
 		out := make([]c07Obs, len(cases))
 		errs := make([]error, len(cases))
 		workers := runtime.NumCPU()
@@ -383,7 +406,7 @@ func init() {
 			go func() {
 				defer wg.Done()
 				for i := range jobs {
-					out[i], errs[i] = c07Isolated(self, cases[i])
+					out[i], errs[i] = c07Isolated(self, tmp, cases[i])
 				}
 			}()
 		}
